@@ -37,7 +37,8 @@ def wait_obls(tier, timed):
                      no_std=["--pointer-overflow-check", "--signed-overflow-check", "--undefined-shift-check"], encodes=ENC,
                      bounds="focus + <=1 waiter ahead + <=1 behind; <=2 signal/broadcast; <=1 environment step per scheduling point; <=2 while parked; poll/retry loops unwound 2-4x with unwinding assertions",
                      symbolic="kinds of the other waiters, placement and kind of every environment step, deadline, clock readings", timeout=900 if tier == "thorough" else 280, mem_gb=12))
-    o += deepen([x for x in o if x.hooks], tier)
+    # nesting depth 2 is not offered here: the environment programs of this harness are not re-entrant (a nested step would re-run a
+    # step that is in progress) and the runs exceed the thorough budget (measured: no verdict in 900 s)
     return o
 
 
